@@ -389,10 +389,10 @@ theorem inv_end (o : Opts) (st : St) (h : List Item) (n d : List Char) (rest : L
     exact hinv this.1 this.2
   unfold endStep
   simp only
-  by_cases hd : isDroppedTag o n = true
+  by_cases hd : (isDroppedTag o n && !(o.keepEndTags && isDroppedTag o n && st.docOpen.contains n)) = true
   · simp only [hd, if_true]
     refine ⟨?_, by split <;> simp [hde]⟩
-    apply key _ (dropped_not_obj o n hd)
+    apply key _ (dropped_not_obj o n (by simp only [Bool.and_eq_true] at hd; exact hd.1))
     intro hb h1 h2
     by_cases hp : hashIs n "pre" = true
     · rw [hashIs_eq hp, hpre] at hb; exact absurd hb (by decide)
